@@ -2175,4 +2175,302 @@ theorem plusKey_den (ct : ClassTable) (es0 : List (KeyKind × Spec × Spec)) :
       exact fin (denote ct ks key) (fun w hw => pure_den ct ks key w hp.1 hwk hw) h
 end
 
+/-! ### what a fault can be: the classes of the exceptions the sequential reading lets escape -/
+
+theorem withDefault_faultOK (d : Option Arg) (t : V) (x : D) (h : faultOK x.1 = true) :
+    faultOK (withDefault d t x).1 = true := by
+  obtain ⟨v, l⟩ := x
+  cases v with
+  | pass r => cases d <;> simp [withDefault, faultOK]
+  | reject o =>
+    cases d with
+    | none => simp [withDefault, faultOK]
+    | some a =>
+      simp only [withDefault]
+      have := (ofArg_pass a t).2
+      cases ho : ofArg a t <;> simp_all [faultOK, isFault]
+  | fault c => cases d <;> simpa [withDefault] using h
+
+theorem allItems_faultOK (f : V → D) (items : List V) (hf : ∀ x ∈ items, faultOK (f x).1 = true) :
+    ∀ e, (allItems f items).1 = .error e → faultOK e = true := by
+  induction items with
+  | nil => intro e h; simp [allItems] at h
+  | cons x xs ih =>
+    intro e h
+    have hx := hf x (by simp)
+    unfold allItems at h
+    cases hfx : (f x).1 with
+    | pass v =>
+      simp only [hfx] at h
+      cases hr : (allItems f xs).1 with
+      | ok vs => rw [hr] at h; simp [Except.map] at h
+      | error e' =>
+        rw [hr] at h; simp only [Except.map] at h; injection h with h; subst h
+        exact ih (fun y hy => hf y (by simp [hy])) _ hr
+    | reject o => simp only [hfx] at h; injection h with h; subst h; rfl
+    | fault c => simp only [hfx] at h; injection h with h; subst h; rw [hfx] at hx; exact hx
+
+theorem finish_faultOK (mk : List V → Verdict) (r : (Except Verdict (List V)) × Log)
+    (hmk : ∀ vs, faultOK (mk vs) = true) (hr : ∀ e, r.1 = .error e → faultOK e = true) :
+    faultOK (finish mk r).1 = true := by
+  obtain ⟨rv, l⟩ := r
+  unfold finish
+  cases rv with
+  | ok vs => exact hmk vs
+  | error v => exact hr v rfl
+
+theorem mkSetRef_faultOK (frozen : Bool) (vs : List V) : faultOK (mkSetRef frozen vs) = true := by
+  unfold mkSetRef; split <;> simp [faultOK]
+
+theorem defaultsRef_faultOK (target : V) (ds : List (V × Arg)) (result : List (V × V)) (e : Verdict)
+    (h : defaultsRef target ds result = .error e) : faultOK e = true := by
+  have := defaultsRef_noFault target ds result e h
+  cases e <;> simp_all [faultOK, isFault]
+
+theorem dictRef_faultOK (find : V → V → KeyHit × Log) (items result : List (V × V)) (seen : List Nat)
+    (hf : ∀ kv ∈ items, ∀ x, (find kv.1 kv.2).1 = .stop x → faultOK x = true) :
+    ∀ e, (dictRef find items result seen).1 = .error e → faultOK e = true := by
+  induction items generalizing result seen with
+  | nil => intro e h; simp [dictRef] at h
+  | cons kv rest ih =>
+    obtain ⟨k, v⟩ := kv
+    intro e h
+    unfold dictRef at h
+    cases hfk : (find k v).1 with
+    | hit i k' v' =>
+      simp only [hfk] at h
+      exact ih _ _ (fun kv hkv => hf kv (by simp [hkv])) e h
+    | noKey => simp only [hfk] at h; injection h with h; subst h; rfl
+    | stop x =>
+      simp only [hfk] at h; injection h with h; subst h
+      exact hf (k, v) (by simp) x hfk
+
+theorem checkRef_faultOK (ct : ClassTable) (a : CheckArgs) (t : V) : faultOK (checkRef ct a t).1 = true := by
+  cases ho : checkObjRef a with
+  | ok o =>
+    have := checkRef_noFault ct a t o ho
+    cases h : (checkRef ct a t).1 <;> simp_all [faultOK, isFault]
+  | error e =>
+    unfold checkRef
+    rw [ho]
+    simp only [faultOK]
+    unfold checkObjRef at ho
+    split at ho
+    · rename_i er her
+      injection ho with ho; subst ho
+      have hm := List.mem_of_find?_eq_some her
+      simp only [checkArgErrors, List.mem_cons, List.not_mem_nil, or_false] at hm
+      rcases hm with rfl | rfl | rfl | rfl <;> simp
+    · cases ho
+
+theorem cmp_faultOK (op : CmpOp) (lv rv t : V) :
+    faultOK ((match pyCmp op lv rv with
+      | some b => vcond b t
+      | none => ((.fault "TypeError", []) : D))).1 = true := by
+  cases pyCmp op lv rv with
+  | none => simp [faultOK]
+  | some b => cases b <;> simp [vcond, vpass, vreject, faultOK]
+
+mutual
+theorem den_faultOK (ct : ClassTable) : ∀ (p : Spec) (t : V), faultOK (denote ct p t).1 = true
+  | .t e, t => by simp only [denote, vaccess]; cases tGet e t <;> rfl
+  | .val v, t => rfl
+  | .mtype, t => by simp only [denote, vcond]; cases truthy t <;> rfl
+  | .msub e, t => by
+    simp only [denote, vaccess]
+    cases tGet e t with
+    | none => rfl
+    | some m => simp only [vcond]; cases truthy m <;> rfl
+  | .mexpr l op r, t => by
+    simp only [denote]
+    cases l with
+    | m =>
+      simp only [msideRef]
+      cases r with
+      | m => exact cmp_faultOK op t t t
+      | const v => exact cmp_faultOK op t v t
+      | sub e =>
+        simp only [sideRef, vaccess]
+        cases tGet e t with
+        | none => rfl
+        | some rv => exact cmp_faultOK op t rv t
+    | sub e' =>
+      simp only [msideRef, vaccess]
+      cases tGet e' t with
+      | none => rfl
+      | some lv =>
+        simp only
+        cases r with
+        | m => exact cmp_faultOK op lv t t
+        | const v => exact cmp_faultOK op lv v t
+        | sub e =>
+          simp only [sideRef, vaccess]
+          cases tGet e t with
+          | none => rfl
+          | some rv => exact cmp_faultOK op lv rv t
+  | .and cs d, t => by simp only [denote]; exact withDefault_faultOK d t _ (denAll_faultOK ct cs t t)
+  | .or cs d, t => by simp only [denote]; exact withDefault_faultOK d t _ (denAny_faultOK ct cs t)
+  | .not c, t => by
+    simp only [denote]
+    have ih := den_faultOK ct c t
+    cases hv : (denote ct c t).1 with
+    | pass v => rfl
+    | reject o => rfl
+    | fault x => rw [hv] at ih; exact ih
+  | .switch cases d, t => by simp only [denote]; exact denCases_faultOK ct cases d t
+  | .check a, t => by simp only [denote]; exact checkRef_faultOK ct a t
+  | .regex items f, t => by
+    simp only [denote]
+    cases t with
+    | str s => simp only [vcond]; cases reMatches items f s <;> rfl
+    | _ => rfl
+  | .matchS s d, t => by simp only [denote]; exact withDefault_faultOK d t _ (den_faultOK ct s t)
+  | .ty n, t => by simp only [denote]; cases isInst ct t n <;> rfl
+  | .lit v, t => by simp only [denote, vcond]; cases pyEq t v <;> rfl
+  | .pred id fn, t => by
+    simp only [denote]
+    cases predApply fn t with
+    | ret v => simp only; cases truthy v <;> rfl
+    | raise c => rfl
+  | .list alts, t => by
+    simp only [denote]
+    cases t.unsub with
+    | list items =>
+      exact finish_faultOK _ _ (fun vs => rfl)
+        (allItems_faultOK _ _ (fun x _ => denAlt_faultOK ct alts x))
+    | _ => rfl
+  | .set alts, t => by
+    simp only [denote]
+    cases t.unsub with
+    | set items =>
+      exact finish_faultOK _ _ (mkSetRef_faultOK false)
+        (allItems_faultOK _ _ (fun x _ => denAlt_faultOK ct alts x))
+    | _ => rfl
+  | .fset alts, t => by
+    simp only [denote]
+    cases t.unsub with
+    | fset items =>
+      exact finish_faultOK _ _ (mkSetRef_faultOK true)
+        (allItems_faultOK _ _ (fun x _ => denAlt_faultOK ct alts x))
+    | _ => rfl
+  | .tuple ps, t => by
+    simp only [denote]
+    cases t.unsub with
+    | tuple items =>
+      simp only
+      split
+      · rfl
+      · exact finish_faultOK _ _ (fun vs => rfl) (denZip_faultOK ct ps items)
+    | _ => rfl
+  | .dict es, t => by
+    simp only [denote]
+    cases t.unsub with
+    | dict items =>
+      simp only
+      have hnf := dictRef_faultOK (denKey ct es 0) items [] []
+        (fun kv _ x hx => denKey_faultOK ct es 0 kv.1 kv.2 x hx)
+      cases hr : (dictRef (denKey ct es 0) items [] []).1 with
+      | error v => simp only; exact hnf v hr
+      | ok p =>
+        obtain ⟨result, seen⟩ := p
+        simp only
+        cases hdr : defaultsRef t (dictDefaults es) result with
+        | error v => simp only; exact defaultsRef_faultOK _ _ _ v hdr
+        | ok r' => simp only; split <;> rfl
+    | _ => rfl
+
+theorem denAll_faultOK (ct : ClassTable) : ∀ (cs : List Spec) (t r : V), faultOK (denAll ct cs t r).1 = true
+  | [], t, r => rfl
+  | c :: cs, t, r => by
+    have ih := den_faultOK ct c t
+    simp only [denAll]
+    cases hv : (denote ct c t).1 with
+    | pass v => simp only; exact denAll_faultOK ct cs t v
+    | reject o => simp only; rw [hv]; rfl
+    | fault x => simp only; exact ih
+
+theorem denAny_faultOK (ct : ClassTable) : ∀ (cs : List Spec) (t : V), faultOK (denAny ct cs t).1 = true
+  | [], t => rfl
+  | [c], t => by simp only [denAny]; exact den_faultOK ct c t
+  | c :: c' :: cs, t => by
+    have ih := den_faultOK ct c t
+    rw [denAny]
+    cases hv : (denote ct c t).1 with
+    | pass v => simp only; rw [hv]; rfl
+    | reject o => simp only; exact denAny_faultOK ct (c' :: cs) t
+    | fault x => simp only; exact ih
+
+theorem denAlt_faultOK (ct : ClassTable) : ∀ (alts : List Spec) (x : V), faultOK (denAlt ct alts x).1 = true
+  | [], x => rfl
+  | [c], x => by simp only [denAlt]; exact den_faultOK ct c x
+  | c :: c' :: cs, x => by
+    have ih := den_faultOK ct c x
+    rw [denAlt]
+    cases hv : (denote ct c x).1 with
+    | pass v => simp only; rw [hv]; rfl
+    | reject o => simp only; exact denAlt_faultOK ct (c' :: cs) x
+    | fault y => simp only; exact ih
+
+theorem denCases_faultOK (ct : ClassTable) : ∀ (cases : List (Spec × Spec)) (d : Option Arg) (t : V),
+    faultOK (denCases ct cases d t).1 = true
+  | [], d, t => by simp only [denCases]; exact withDefault_faultOK d t _ rfl
+  | (k, v) :: rest, d, t => by
+    have ih := den_faultOK ct k t
+    simp only [denCases]
+    cases hv : (denote ct k t).1 with
+    | pass r => simp only; exact den_faultOK ct v t
+    | reject o => simp only; exact denCases_faultOK ct rest d t
+    | fault x => rw [hv] at ih; exact ih
+
+theorem denZip_faultOK (ct : ClassTable) : ∀ (ps : List Spec) (xs : List V) (e : Verdict),
+    (denZip ct ps xs).1 = .error e → faultOK e = true
+  | [], xs, e, h => by simp [denZip] at h
+  | _ :: _, [], e, h => by simp [denZip] at h
+  | p :: ps, x :: xs, e, h => by
+    have ih := den_faultOK ct p x
+    simp only [denZip] at h
+    cases hv : (denote ct p x).1 with
+    | pass v =>
+      rw [hv] at h; simp only at h
+      cases hr : (denZip ct ps xs).1 with
+      | ok vs => rw [hr] at h; simp [Except.map] at h
+      | error e' =>
+        rw [hr] at h; simp only [Except.map] at h; injection h with h; subst h
+        exact denZip_faultOK ct ps xs _ hr
+    | reject o => rw [hv] at h; simp only at h; injection h with h; subst h; rfl
+    | fault y => rw [hv] at h ih; simp only at h; injection h with h; subst h; exact ih
+
+theorem denKey_faultOK (ct : ClassTable) : ∀ (es : List (KeyKind × Spec × Spec)) (i : Nat) (key val : V)
+    (x : Verdict), (denKey ct es i key val).1 = .stop x → faultOK x = true
+  | [], i, key, val, x, h => by simp [denKey] at h
+  | (kind, ks, vs) :: es, i, key, val, x, h => by
+    have ihv := den_faultOK ct vs val
+    have core : ∀ kr : D, faultOK kr.1 = true →
+        ((match kr.1 with
+           | .pass k' =>
+             (match (denote ct vs val).1 with
+              | .pass v' => (KeyHit.hit i k' v', kr.2 ++ (denote ct vs val).2)
+              | other => (.stop other, kr.2 ++ (denote ct vs val).2))
+           | .reject _ => ((denKey ct es (i + 1) key val).1, kr.2 ++ (denKey ct es (i + 1) key val).2)
+           | .fault c => (.stop (.fault c), kr.2)) : KeyHit × Log).1 = .stop x → faultOK x = true := by
+      intro kr hkr hh
+      cases hkv : kr.1 with
+      | pass k' =>
+        rw [hkv] at hh; simp only at hh
+        cases hvv : (denote ct vs val).1 with
+        | pass v' => rw [hvv] at hh; simp at hh
+        | reject o => rw [hvv] at hh; simp only at hh; injection hh with hh; subst hh; rfl
+        | fault c => rw [hvv] at hh ihv; simp only at hh; injection hh with hh; subst hh; exact ihv
+      | reject o => rw [hkv] at hh; simp only at hh; exact denKey_faultOK ct es (i + 1) key val x hh
+      | fault c => rw [hkv] at hh hkr; simp only at hh; injection hh with hh; subst hh; exact hkr
+    simp only [denKey] at h
+    cases ho : optKey kind ks with
+    | some k =>
+      rw [ho] at h; simp only at h
+      exact core (vcond (pyEq key k) key) (by cases pyEq key k <;> rfl) h
+    | none =>
+      rw [ho] at h; simp only at h
+      exact core (denote ct ks key) (den_faultOK ct ks key) h
+end
+
 end Glom.C09
